@@ -240,10 +240,9 @@ def scenarios(tier, seed):
              ("backends", {"shape": [2, 4], "convention": "canonical_hartley"}),
              ("smoothing", {"shape": [4], "dist": [0.5], "sigma": 0.3})]
     thorough = [("operator", {"shape": [2, 4], "dist": [0.5, 0.25], "which": "fft", "cplx": True}),
-                ("operator", {"shape": [4, 2], "dist": [1.0, 2.0], "which": "hartley", "cplx": True}),
+                ("operator", {"shape": [4, 2], "dist": [1.0, 2.0], "which": "hartley", "cplx": False}),
                 ("backends", {"shape": [2, 4], "convention": "non_canonical_hartley"}),
                 ("backends", {"shape": [4], "convention": "canonical_hartley"}),
-                ("backends", {"shape": [3], "convention": "canonical_hartley"}),
                 ("smoothing", {"shape": [2, 4], "dist": [0.5, 0.5], "sigma": 0.7})]
     return quick if tier == "quick" else quick + thorough
 
@@ -263,8 +262,8 @@ META = {
     "functions_encoded": ["nifty.cl.ducc_dispatch.{fftn,ifftn,hartley,_scipy_fftn,_scipy_ifftn,_scipy_hartley}",
                           "nifty.cl.operators.harmonic_operators.{FFTOperator.apply,HartleyOperator.apply,_apply_cartesian,HarmonicSmoothingOperator}",
                           "nifty.re.correlated_field.hartley", "nifty.cl.domains.rg_space.RGSpace.{get_default_codomain,get_k_length_array,_kernel}"],
-    "bounds": {"grids": "1-D with 3-4 pixels, 2-D with 2x4 / 4x2 pixels", "distances": "concrete"},
+    "bounds": {"grids": "1-D with 4 pixels, 2-D with 2x4 / 4x2 pixels", "distances": "concrete"},
     "stubs": ["ducc0.fft.{c2c,genuine_hartley,genuine_fht}, scipy.fft.{fftn,ifftn} and the XLA fft primitive = explicit DFT sums (validated against the real kernels on float input)"],
-    "outside": ["the FFT kernels themselves (compiled)", "SHTOperator and spherical harmonics (ducc0.sht)", "GPU paths", "larger grids"],
+    "outside": ["the FFT kernels themselves (compiled)", "HartleyOperator on complex fields (the real/imaginary split is chosen by dtype, symbolic fields have dtype object)", "axis lengths other than 2 and 4 (twiddle factors with square roots)", "SHTOperator and spherical harmonics (ducc0.sht)", "GPU paths", "larger grids"],
     "assumptions": [],
 }
